@@ -6,7 +6,9 @@ import json, os, shutil, subprocess, sys, tempfile, glob
 VERIF = os.path.dirname(os.path.dirname(os.path.abspath(__file__)))
 budget = sys.argv[1] if len(sys.argv) > 1 else "30"
 CROSS = {"C02-r2-3": ["C04"], "C03-r2-2": ["C11"], "C08-r2-2": ["C09"], "C11-3": ["C04"], "C18-r2-1": ["C03"], "C17-r2-3": ["C09"],
-         "C02-r2-2": ["C03"], "C03-3": ["C08"]}
+         "C02-r2-2": ["C03"], "C03-3": ["C08"],
+         "C02-r3-3": ["C09"], "C03-r3-2": ["C09"], "C03-r3-3": ["C04", "C11"], "C08-r3-3": ["C03"], "C18-r3-2": ["C03"],
+         "C11-r3-2": ["C09"], "C09-r3-2": ["C02"]}
 out = {}
 for d in sorted(glob.glob(os.path.join(VERIF, "seeded", "C*"))):
     name = os.path.basename(d)
